@@ -22,7 +22,8 @@ import (
 
 // C06 — a body is decoded only by the consumer of an admitted media type, else 415.
 //
-// One stream, both binding entry points (and the complete API handler) on the same request:
+// Two streams, both binding entry points (and the complete API handler) on the same request.
+// G: the content-type gate alone (no Accept header, a binder that succeeds):
 //
 //	G <opConsumes> <apiDefault> <registered> <method> <ctLines> <contentLength> <clHeader> <bodyMode>
 //	  => <hasBody> <eff> <p1> <p2> <uCodes> <uSel> <uRan> <tCodes> <tSel> <tRan> <sStatus> <sRan> <sHandler>
@@ -40,6 +41,20 @@ import (
 // consumer left in route.Consumer (-1 none) and the consumer whose Consume ran (-1 none); for S =
 // the complete handler of middleware.Serve: status, consumer that ran, whether the operation
 // handler ran.
+//
+// H: the whole of Context.BindValidRequest / validateRequest (gate, response-format check, binder):
+//
+//	H <G's eight inputs> <opProduces> <apiDefaultProduces> <acceptLines> <binder>
+//	  => <hasBody> <eff> <p1> <p2> <routeProduces> <uCodes> <uSel> <uRan> <tCodes> <tSel> <tBinderRan> <tRan> <tAsIs>
+//	     <sStatus> <sRan> <sHandler>
+//
+// Additional inputs: the operation's produces list as spelled in the spec ("." none; the document
+// has no global produces); api.DefaultProduces ("-" none); the Accept header lines; the binder handed
+// to BindValidRequest: 0 nil, 1 succeeds (decodes the body with route.Consumer when there is one),
+// 2 fails with an errors.Error of code 422, 3 fails with a plain error (shown as 599).
+// Additional outputs: route.Produces as found on the matched route; how often the binder was called;
+// whether the error BindValidRequest returned is the very value the binder returned. The complete
+// handler S is run only for an API with a default producer (Respond needs one); else "0 -1 0".
 func init() {
 	proto.Register(&proto.Prop{ID: "C06", Gen: c06Gen, Exec: c06Exec, Corpus: c06Corpus})
 }
@@ -62,6 +77,7 @@ func (c *c06Consumer) Consume(r io.Reader, _ interface{}) error {
 }
 
 type c06API struct {
+	api     *untyped.API
 	ctx     *middleware.Context
 	handler http.Handler
 	ran     []int
@@ -81,14 +97,34 @@ func c06Get(fCons, fDflt, fReg string) *c06API {
 		if len(c06APIs) > 20000 {
 			c06APIs = map[string]*c06API{}
 		}
-		a = c06Build(fCons, proto.UnL(fCons), proto.UnB(fDflt), proto.UnL(fReg))
+		a = c06Build(c06Doc(fCons, proto.UnL(fCons), nil, true), proto.UnB(fDflt), proto.UnL(fReg), runtime.JSONMime)
 		c06APIs[key] = a
 	}
 	a.ran, a.handled = nil, 0
 	return a
 }
 
-func c06Doc(key string, opConsumes []string) *loads.Document {
+// stream H: the operation's produces list and the API's default producer are part of the configuration
+func c06GetH(fCons, fDflt, fReg, fProd, fDprod string) *c06API {
+	key := "H " + fCons + " " + fDflt + " " + fReg + " " + fProd + " " + fDprod
+	a, ok := c06APIs[key]
+	if !ok {
+		if len(c06APIs) > 20000 {
+			c06APIs = map[string]*c06API{}
+		}
+		a = c06Build(c06Doc("H "+fCons+" "+fProd, proto.UnL(fCons), proto.UnL(fProd), false), proto.UnB(fDflt), proto.UnL(fReg), proto.UnB(fDprod))
+		for _, mt := range proto.UnL(fProd) {
+			if n := c06Norm(mt); n != "" {
+				a.api.RegisterProducer(n, runtime.JSONProducer())
+			}
+		}
+		c06APIs[key] = a
+	}
+	a.ran, a.handled = nil, 0
+	return a
+}
+
+func c06Doc(key string, opConsumes, opProduces []string, globalProduces bool) *loads.Document {
 	if d, ok := c06Docs[key]; ok {
 		return d
 	}
@@ -98,6 +134,9 @@ func c06Doc(key string, opConsumes []string) *loads.Document {
 	}
 	if len(opConsumes) > 0 {
 		op["consumes"] = opConsumes
+	}
+	if len(opProduces) > 0 {
+		op["produces"] = opProduces
 	}
 	item := map[string]interface{}{}
 	for _, m := range c06Methods {
@@ -111,8 +150,10 @@ func c06Doc(key string, opConsumes []string) *loads.Document {
 		"swagger":  "2.0",
 		"info":     map[string]interface{}{"title": "c06", "version": "1"},
 		"basePath": "/",
-		"produces": []string{"application/json"},
 		"paths":    map[string]interface{}{"/x": item},
+	}
+	if globalProduces {
+		doc["produces"] = []string{"application/json"}
 	}
 	raw, err := json.Marshal(doc)
 	if err != nil {
@@ -126,13 +167,15 @@ func c06Doc(key string, opConsumes []string) *loads.Document {
 	return d
 }
 
-func c06Build(key string, opConsumes []string, dflt string, registered []string) *c06API {
+func c06Build(d *loads.Document, dflt string, registered []string, dprod string) *c06API {
 	a := &c06API{}
-	d := c06Doc(key, opConsumes)
 	api := untyped.NewAPI(d).WithoutJSONDefaults()
+	a.api = api
 	api.DefaultConsumes = dflt
-	api.DefaultProduces = runtime.JSONMime
-	api.RegisterProducer(runtime.JSONMime, runtime.JSONProducer())
+	api.DefaultProduces = dprod
+	if dprod != "" {
+		api.RegisterProducer(dprod, runtime.JSONProducer())
+	}
 	for i, mt := range registered {
 		api.RegisterConsumer(mt, &c06Consumer{id: i, ran: &a.ran})
 	}
@@ -154,6 +197,7 @@ type c06Req struct {
 	clHdr   string
 	hasCL   bool
 	mode    int
+	accept  []string
 }
 
 func (q c06Req) mk() *http.Request {
@@ -173,6 +217,9 @@ func (q c06Req) mk() *http.Request {
 	}
 	if q.hasCL {
 		r.Header["Content-Length"] = []string{q.clHdr}
+	}
+	if len(q.accept) > 0 {
+		r.Header["Accept"] = append([]string(nil), q.accept...)
 	}
 	switch q.mode {
 	case 0:
@@ -250,7 +297,106 @@ func c06ParseObs(s string) string {
 	return proto.B(mt)
 }
 
+// the binder handed to BindValidRequest in stream H
+type c06HBinder struct {
+	calls int
+	err   error
+}
+
+func (b *c06HBinder) BindRequest(r *http.Request, route *middleware.MatchedRoute) error {
+	b.calls++
+	if b.err != nil {
+		return b.err
+	}
+	if runtime.HasBody(r) && route.Consumer != nil {
+		var v interface{}
+		return route.Consumer.Consume(r.Body, &v)
+	}
+	return nil
+}
+
+func c06ExecH(in []string) []string {
+	if len(in) != 13 {
+		return []string{"INVALID"}
+	}
+	q := c06Req{method: proto.UnB(in[4]), ctLines: proto.UnL(in[5]), cl: int64(proto.UnN(in[6])), mode: proto.UnN(in[8]), accept: proto.UnL(in[11])}
+	if in[7] != "-" {
+		q.hasCL, q.clHdr = true, proto.UnB(in[7])
+	}
+	known := false
+	for _, m := range c06Methods {
+		known = known || strings.ToUpper(q.method) == m
+	}
+	kind := proto.UnN(in[12])
+	if !known || q.mode < 0 || q.mode > 3 || kind < 0 || kind > 3 {
+		return []string{"INVALID"}
+	}
+	dprod := proto.UnB(in[10])
+	build := func() *c06API { return c06GetH(in[1], in[2], in[3], in[9], in[10]) }
+
+	hasBody := runtime.HasBody(q.mk())
+	eff := ""
+	if len(q.ctLines) > 0 {
+		eff = q.ctLines[0]
+	}
+	if eff == "" {
+		eff = runtime.DefaultMime
+	}
+	p1 := c06ParseObs(eff)
+	p2 := "E"
+	if p1 != "E" {
+		p2 = c06ParseObs(proto.UnB(p1))
+	}
+
+	// U: the reflective entry point
+	a := build()
+	route, rq, ok := a.ctx.RouteInfo(q.mk())
+	if !ok {
+		panic("C06: no route for " + q.method)
+	}
+	rp := proto.L(route.Produces)
+	_, _, uerr := a.ctx.BindAndValidate(rq, route)
+	uCodes, uSel, uRan := c06Codes(uerr), c06Sel(route.Consumer), c06Ran(a.ran)
+
+	// T: the entry point of generated servers
+	a = build()
+	route, rq, _ = a.ctx.RouteInfo(q.mk())
+	var terr error
+	calls, asIs := 0, false
+	if kind == 0 {
+		terr = a.ctx.BindValidRequest(rq, route, nil)
+	} else {
+		b := &c06HBinder{}
+		switch kind {
+		case 2:
+			b.err = apierrors.New(422, "binder says no")
+		case 3:
+			b.err = io.ErrUnexpectedEOF
+		}
+		terr = a.ctx.BindValidRequest(rq, route, b)
+		calls = b.calls
+		asIs = b.err != nil && terr == b.err
+	}
+	tCodes, tSel, tRan := c06Codes(terr), c06Sel(route.Consumer), c06Ran(a.ran)
+
+	// S: the complete handler
+	sSt, sRan, sH := "0", "-1", "0"
+	if dprod != "" {
+		a = build()
+		rec := httptest.NewRecorder()
+		a.handler.ServeHTTP(rec, q.mk())
+		sSt, sRan, sH = strconv.Itoa(rec.Code), c06Ran(a.ran), strconv.Itoa(a.handled)
+	}
+
+	return []string{proto.Bool(hasBody), proto.B(eff), p1, p2, rp,
+		uCodes, uSel, uRan, tCodes, tSel, strconv.Itoa(calls), tRan, proto.Bool(asIs),
+		sSt, sRan, sH}
+}
+
 func c06Exec(in []string) []string {
+	if in[0] == "H" {
+		return c06ExecH(in)
+	}
 	if in[0] != "G" {
 		panic("C06: unknown stream " + in[0])
 	}
@@ -337,6 +483,33 @@ var c06Corpus = [][]string{
 	c06Case([]string{c06JSON}, "", []string{c06JSON}, "POST", []string{c06JSON + "; charset=a; charset=b"}, 7, "7", 2),
 	// Content-Length: 0 wins over a readable stream
 	c06Case([]string{c06JSON}, "", []string{c06JSON}, "GET", []string{"text/plain"}, 0, "0", 2),
+
+	// ---- stream H: the whole functions
+	// F06b witness (fixed): an admitted JSON body and an Accept header that admits nothing the operation
+	// produces: BindValidRequest used to hand the request's own media type to the negotiation as the
+	// default offer, let the request through and run the binder, where BindAndValidate answers 406
+	c06CaseH(c06Case([]string{c06JSON}, "", []string{c06JSON}, "POST", []string{c06JSON}, 7, "7", 2), []string{c06JSON}, c06JSON, []string{"image/png"}, 1),
+	c06CaseH(c06Case([]string{c06JSON}, "", []string{c06JSON}, "POST", []string{c06JSON}, 7, "7", 2), []string{"text/plain"}, c06JSON, []string{"image/png, text/plain;q=0, application/json;q=0.000"}, 2),
+	// the same header without a body: 406 by both entry points (already before the repair)
+	c06CaseH(c06Case([]string{c06JSON}, "", []string{c06JSON}, "GET", nil, 0, "", 0), []string{c06JSON}, c06JSON, []string{"image/png"}, 1),
+	// an operation that declares no type (API without default producer) is not subjected to the check
+	c06CaseH(c06Case([]string{c06JSON}, "", []string{c06JSON}, "DELETE", nil, 0, "", 0), nil, "", []string{"image/png"}, 1),
+	c06CaseH(c06Case([]string{c06JSON}, "", []string{c06JSON}, "POST", []string{c06JSON}, 7, "7", 2), nil, "", []string{"image/png;q=0"}, 3),
+	// the binder's error comes back as it is; a nil binder; a refused body never reaches the binder
+	c06CaseH(c06Case([]string{c06JSON}, "", []string{c06JSON}, "POST", []string{c06JSON}, 7, "7", 2), []string{c06JSON}, c06JSON, []string{"*/*;q=0.1"}, 2),
+	c06CaseH(c06Case([]string{c06JSON}, "", []string{c06JSON}, "POST", []string{c06JSON}, 7, "7", 2), []string{c06JSON}, c06JSON, nil, 3),
+	c06CaseH(c06Case([]string{c06JSON}, "", []string{c06JSON}, "POST", []string{c06JSON}, 7, "7", 2), []string{c06JSON}, c06JSON, []string{"application/*"}, 0),
+	c06CaseH(c06Case([]string{c06JSON}, "", []string{c06JSON}, "POST", []string{"text/html"}, 7, "7", 2), []string{c06JSON}, c06JSON, []string{"image/png"}, 2),
+	c06CaseH(c06Case([]string{c06JSON}, "", []string{c06JSON}, "POST", []string{"/json"}, 7, "7", 2), []string{c06JSON}, c06JSON, nil, 3),
+	// several header lines; the default type is the only one admitted; an offer with parameters
+	c06CaseH(c06Case(nil, c06JSON, []string{c06JSON}, "PUT", nil, -1, "", 2), []string{"text/plain; charset=utf-8", "application/xml"}, c06JSON, []string{"image/png", "application/json;q=0.2"}, 1),
+	c06CaseH(c06Case(nil, c06JSON, []string{c06JSON}, "PUT", nil, -1, "", 2), []string{"text/plain; charset=utf-8"}, "", []string{"text/plain"}, 1),
+	c06CaseH(c06Case(nil, c06JSON, []string{c06JSON}, "PUT", nil, -1, "", 2), []string{"text/plain; charset=utf-8"}, "", []string{"text/plain; charset=utf-8;q=0"}, 1),
+}
+
+func c06CaseH(g []string, oprod []string, dprod string, accept []string, binder int) []string {
+	out := append([]string{"H"}, g[1:]...)
+	return append(out, proto.L(oprod), proto.B(dprod), proto.L(accept), strconv.Itoa(binder))
 }
 
 var c06Concrete = []string{c06JSON, "text/plain", "text/html", "application/xml", "application/octet-stream", "a/b", "foo", "application/vnd.x+json"}
@@ -569,18 +742,193 @@ func c06Exhaustive(emit func(in ...string)) {
 	}
 }
 
+var c06ProdPool = []string{c06JSON, "text/plain", "application/xml", "text/html", "image/png", "a/b"}
+
+// the operation's produces list and the API's default producer (lower case, parameter-free: Respond
+// looks the default producer up under the name as spelled)
+func c06Produces(r *proto.Rng) (oprod []string, dprod string) {
+	switch k := r.Intn(10); {
+	case k < 2:
+	case k < 7:
+		dprod = c06JSON
+	default:
+		dprod = r.Pick("text/plain", "application/xml", "a/b")
+	}
+	switch k := r.Intn(20); {
+	case k < 5:
+	case k < 12:
+		oprod = []string{r.Pick(c06ProdPool...)}
+	case k < 17:
+		n := 2 + r.Intn(2)
+		for i := 0; i < n; i++ {
+			oprod = append(oprod, r.Pick(c06ProdPool...))
+		}
+	case k < 19:
+		oprod = []string{r.Pick(c06ProdPool[:3]...) + r.Pick("; charset=utf-8", ";q=1", ";"), r.Pick(c06ProdPool...)}
+	default:
+		oprod = []string{r.Pick("Application/JSON", "text/*", "*/*", "foo", "TEXT/plain")}
+	}
+	if dprod != "" && r.Chance(1, 4) { // the default spelled in the list: first, or not
+		oprod = append(oprod, dprod)
+		if r.Chance(1, 2) {
+			oprod[0], oprod[len(oprod)-1] = oprod[len(oprod)-1], oprod[0]
+		}
+	}
+	return
+}
+
+func c06Wildcard(t string) string {
+	if i := strings.Index(t, "/"); i > 0 {
+		return t[:i] + "/*"
+	}
+	return "*/*"
+}
+
+// Accept header lines aimed at the declared types: absent / matching / non-matching / wildcard / q=0 /
+// several lines / C07's grammar / noise
+func c06Accept(r *proto.Rng, declared []string) []string {
+	pick := func() string {
+		if len(declared) > 0 && r.Chance(4, 5) {
+			return c06Norm(declared[r.Intn(len(declared))])
+		}
+		return r.Pick(c06ProdPool...)
+	}
+	other := func() string {
+		for k := 0; k < 8; k++ {
+			c := r.Pick("image/png", "application/vnd.cia.v1+json", "text/csv", "a/c", "application/pdf", "image/*", "video/*", "foo")
+			hit := false
+			for _, d := range declared {
+				hit = hit || c06Norm(d) == c || c06Wildcard(c06Norm(d)) == c
+			}
+			if !hit {
+				return c
+			}
+		}
+		return "x/y"
+	}
+	q := func() string {
+		return r.Pick("", "", "", ";q=1", ";q=0.5", "; q=0.001", ";q=1.0", " ;q=0.9;ext=1", ";charset=utf-8", ";level=1;q=0.3")
+	}
+	q0 := func() string { return r.Pick(";q=0", ";q=0.0", "; q=0.000", ";q=.0", ";level=1;q=0") }
+	switch k := r.Intn(40); {
+	case k < 4:
+		return nil
+	case k < 14:
+		return []string{pick() + q()}
+	case k < 18:
+		return []string{other() + q()}
+	case k < 21:
+		return []string{"*/*" + q()}
+	case k < 24:
+		return []string{c06Wildcard(pick()) + q()}
+	case k < 26:
+		return []string{c06Wildcard(other()) + q()}
+	case k < 29:
+		return []string{pick() + q0()}
+	case k < 31:
+		return []string{r.Pick("*/*", c06Wildcard(pick())) + q0() + ", " + other()}
+	case k < 33:
+		return []string{other() + q() + ", " + pick() + q0()}
+	case k < 35:
+		return []string{other() + q() + ", " + other() + ";q=0.2, " + pick() + q()}
+	case k < 37: // several lines
+		return []string{other() + q(), r.Pick(pick()+q(), other()+q(), pick()+q0(), "")}
+	case k < 39:
+		return c07Header(r, false)
+	default:
+		return []string{r.Pick("", " ", ",", ";q=1", "/", "*", "text", c06FlipCase(r, pick()), pick()+";q=x", pick()+" q=0", r.Bytes("a/*;q=0, \t\"", r.Intn(10)))}
+	}
+}
+
+func c06BinderKind(r *proto.Rng) int {
+	switch k := r.Intn(20); {
+	case k < 3:
+		return 0
+	case k < 12:
+		return 1
+	case k < 16:
+		return 2
+	default:
+		return 3
+	}
+}
+
+// c06ExhaustiveH: produces lists of at most two entries over a 4-entry universe x default producer
+// x 16 Accept headers x 4 binders x 4 requests (no body / admitted body / body of a refused type /
+// unparsable Content-Type).
+func c06ExhaustiveH(emit func(in ...string)) {
+	u := []string{c06JSON, "text/plain", "text/plain; charset=utf-8", "application/xml"}
+	lists := [][]string{nil}
+	for i := range u {
+		lists = append(lists, []string{u[i]})
+		for j := i + 1; j < len(u); j++ {
+			lists = append(lists, []string{u[i], u[j]})
+		}
+	}
+	accepts := [][]string{nil, {""}, {"*/*"}, {"*/*;q=0"}, {"image/png"}, {"image/*"}, {c06JSON}, {c06JSON + ";q=0"}, {"text/plain"},
+		{"text/*;q=0.1"}, {"application/*"}, {"application/xml;q=0, image/png"}, {"image/png", "text/plain;q=0.5"},
+		{"text/plain; charset=utf-8"}, {"image/png;q=0"}, {"application/json;q=0, */*;q=0.000, text/plain;q=0"}}
+	reqs := [][]string{
+		c06Case([]string{c06JSON}, "", []string{c06JSON}, "GET", nil, 0, "", 0),
+		c06Case([]string{c06JSON}, "", []string{c06JSON}, "POST", []string{c06JSON}, 7, "7", 2),
+		c06Case([]string{c06JSON}, "", []string{c06JSON}, "POST", []string{"text/html"}, -1, "", 2),
+		c06Case([]string{c06JSON}, "", []string{c06JSON}, "PUT", []string{"/json"}, 7, "7", 2),
+	}
+	for _, l := range lists {
+		for _, d := range []string{"", c06JSON} {
+			for _, a := range accepts {
+				for b := 0; b < 4; b++ {
+					for _, g := range reqs {
+						emit(c06CaseH(g, l, d, a, b)...)
+					}
+				}
+			}
+		}
+	}
+}
+
 func c06Gen(r *proto.Rng, n int, tier string, emit func(in ...string)) {
 	if tier == "thorough" && n >= 100000 {
 		c06Exhaustive(emit)
+		c06ExhaustiveH(emit)
 	}
-	var cons, reg []string
-	var dflt string
+	var cons, reg, oprod []string
+	var dflt, dprod string
 	for i := 0; i < n; i++ {
 		if i%4 == 0 { // four requests per configuration (building an API is the expensive part)
 			cons, dflt, reg = c06Config(r)
+			oprod, dprod = c06Produces(r)
 		}
 		cl, clHdr, mode := c06BodyShape(r)
-		emit(c06Case(cons, dflt, reg, c06Method(r), c06Header(r, cons, dflt), cl, clHdr, mode)...)
+		hdr := c06Header(r, cons, dflt)
+		if i%8 >= 4 && r.Chance(1, 2) {
+			// the tail is reached only past the gate: a body of a listed and registered type, if there is one
+			var good []string
+			for _, e := range append(append([]string{}, cons...), dflt) {
+				for _, g := range reg {
+					if e != "" && e == g && !strings.ContainsAny(e, "*;") && strings.ToLower(e) == e {
+						good = append(good, e)
+					}
+				}
+			}
+			if len(good) > 0 {
+				hdr = []string{good[r.Intn(len(good))] + r.Pick("", "", "; charset=utf-8")}
+				cl, clHdr, mode = 7, "7", 2
+				if r.Chance(1, 3) {
+					cl, clHdr = -1, ""
+				}
+			}
+		}
+		g := c06Case(cons, dflt, reg, c06Method(r), hdr, cl, clHdr, mode)
+		if i%8 < 4 { // alternate configurations: the gate alone / the whole functions
+			emit(g...)
+			continue
+		}
+		declared := append(append([]string{}, oprod...), dprod)
+		if dprod == "" {
+			declared = oprod
+		}
+		emit(c06CaseH(g, oprod, dprod, c06Accept(r, declared), c06BinderKind(r))...)
 	}
 }
 
